@@ -154,10 +154,15 @@ class StreamStatistics:
             self.max_seq = packet.sequence_number
 
             if packet.timestamp != self._last_timestamp and self.packets_received > 1:
-                diff = abs(
+                # RFC 3550 A.8: the transit time difference is a 32-bit
+                # modular quantity, so that RTP timestamp wraparound or a
+                # jump of the arrival clock cannot inject a 2**32 spike
+                diff = (
                     (arrival - self._last_arrival)
                     - (packet.timestamp - self._last_timestamp)
-                )
+                ) & 0xFFFFFFFF
+                if diff > 0x80000000:
+                    diff = 0x100000000 - diff
                 self._jitter_q4 += diff - ((self._jitter_q4 + 8) >> 4)
 
             self._last_arrival = arrival
